@@ -11,11 +11,12 @@ emitted by the unit-buffered NDJSON writer)."""
 from __future__ import annotations
 
 import copy
+import shutil
 import json
 import os
 import struct
 
-from vlib import common, corpus, cxx, rt, values
+from vlib import common, corpus, cxx, mut, rt, values
 from vlib.common import pmap, rng, Inconclusive
 from vlib.model import *  # noqa
 from vlib.refcodec import put_uvarint
@@ -388,6 +389,39 @@ def run(ctx):
             mb.close()
         ma.close(); mu.close()
     same_name_neighbours()
+
+    # the reader generated for an edited model *over the output of the model before the edit*: it is the edited model's reader, so it refuses a
+    # stream of the model before the edit - also when the edit replaces a type name by one of the same length (no generated file changes its size)
+    def regenerated_in_place():
+        from vlib import mut as mutmod       # `mut` is a local name in the enclosing scope
+        pairs = [("float32", "float64"), ("int32", "int64"), ("uint8", "int16"), ("uint16", "uint32"), ("string", "uint64")]
+        if quick:
+            pairs = pairs[:3]
+        for ta, tb in pairs:
+            def mk(t):
+                return Pkg("Regen", [Rec("Cal", [("gain", P(t)), ("offset", P("float32"))]), Proto("Trace", [("cal", N("Cal")), ("samples", S(P(t))), ("n", P("uint32"))])], [], [], "regen")
+            pa, pb = mk(ta), mk(tb)
+            root = os.path.join(ctx.workdir, "cases", "regen_%s_%s" % (ta, tb))
+            shutil.rmtree(root, ignore_errors=True)
+            ma = mutmod.Mut(pa, root, langs=("python",))
+            try:
+                ma.generate()
+                data_a = ma.codec.encode_stream(pa.find("Trace"), ma.schema("Trace"), values.ValueGen(ma.codec, rng("C15rg", ta), json_safe=True).steps(pa.find("Trace"), stream_len=3))
+                nd_a = ("\n".join(ma.codec.ndjson_lines(pa.find("Trace"), ma.schema("Trace"), values.ValueGen(ma.codec, rng("C15rg", ta), json_safe=True).steps(pa.find("Trace"), stream_len=3))) + "\n").encode()
+                ma.close()
+                mb = mutmod.Mut(pb, root, langs=("python",))      # same root: model file and output directory are those of the first generation
+                mb.generate()
+            except mutmod.GenerateFailed as e:
+                raise Inconclusive("regenerate-in-place model did not generate: %s" % str(e)[:200])
+            for fmt, data in (("bin", data_a), ("ndjson", nd_a)):
+                r = rt.PyEndpoint(mb).copy("Trace", fmt, "ndjson", data)
+                ctx.ev()
+                ctx.count("regenerated-in-place")
+                ctx.case(("regenerated-in-place", ta, tb, fmt))
+                refused(ctx, mb, r, "py", "ndjson", "reader regenerated for `gain: %s` over the output generated for `gain: %s`, fed a %s stream of the earlier model" % (tb, ta, fmt),
+                        {"class": "regenerated-in-place:%s-%s" % (ta, tb), "fmt": fmt})
+            mb.close()
+    regenerated_in_place()
 
     # unrelated protocols of corpus models
     def corpus_pairs(key):
